@@ -87,7 +87,7 @@ def obj_digest(o):
 def system_digest(pp, s):
     types = list(s.types)
     d = {'types': [repr(t) for t in types], 'rank': s.rank, 'kT': repr(s.kT)}
-    dom = s.domain
+    dom = getattr(s, 'domain', None)       # a System whose domain was never assigned may not even have the attribute
     if dom is None:
         d['domain'] = None
     else:
